@@ -229,21 +229,22 @@ def _run(chk, tier, rng, binary, gdir):
     chk.extra["renumbered_variants"] = len(variants)
 
     vlib.log("[C10] phase harness pass 2 done %.1fs" % (time.time() - chk.t0))
-    # ---- 5. certificates, TLC judges every dump ----
-    with cf.ProcessPoolExecutor(max_workers=6) as ex:
-        full = list(ex.map(vmeshlib.finish_case, [c["out"] for c in good], chunksize=8))
-    vlib.log("[C10] phase certificates done %.1fs" % (time.time() - chk.t0))
+    # ---- 5. certificates, TLC judges every dump (streamed: the dumps are never all in memory) ----
     byid = {c["id"]: c for c in good}
-    verdicts = vmeshlib.run_tlc_batches(chk, "MeshTopoCheck", "C10_BATCH", full, "c10", max_procs=6)
-    ngeo = sum(1 for c in full if c["geo"])
+    items = [{"id": c["id"], "path": c["out"], "weight": os.path.getsize(c["out"])} for c in good]
+    verdicts, infos = vmeshlib.run_tlc_stream(chk, "MeshTopoCheck", "C10_BATCH", items, "c10", prepare="finish_case", max_procs=6,
+                                              cap_weight=12000000)
+    vlib.log("[C10] phase TLC done %.1fs" % (time.time() - chk.t0))
+    full = [infos[c["id"]] for c in good]
+    ngeo = sum(1 for fc in full if fc["geo"])
     nlev = 0
     for fc in full:
         c = byid[fc["id"]]
         v = verdicts.get(fc["id"])
         if v is None:
             raise vlib.MachineryError("no verdict for " + fc["id"])
-        nlev += len(fc["levels"])
-        chk.count(fc["id"], len(fc["levels"]) > 1)
+        nlev += fc["nlevels"]
+        chk.count(fc["id"], fc["nlevels"] > 1)
         fails = v["fails"]
         for fl in fails:
             if fl["p"].startswith("MACHINERY"):
@@ -264,15 +265,14 @@ def _run(chk, tier, rng, binary, gdir):
     chk.traces = len(full)
     chk.extra["levels_validated"] = nlev
     chk.extra["cases_with_exact_geometry"] = ngeo
-    chk.extra["largest_fine_mesh_cells"] = max([fc["levels"][-1]["n"][-1] for fc in full] or [0])
+    chk.extra["largest_fine_mesh_cells"] = max([fc.get("fine_cells", 0) for fc in full] or [0])
     chk.exhaustive = True
     chk.rule = ("TLC enumerates (spec/MeshGen.tla) every gluing of two reference cells (all facets x all admissible vertex bijections), every "
                 "rotation of the single cell and every 2D three-cell chain, each with its catalogue of mesh parts; plus shipped mesh files, "
                 "structured factories and seeded re-numbered/re-oriented variants. Each case = all levels produced by the real refinement, "
                 "judged by TLC against spec/MeshTopo.tla; non-trivial = at least one refinement; distinct = distinct case id (mesh x route)")
     for fc in full[:3]:
-        chk.sample({"id": fc["id"], "n": [M["n"] for M in fc["levels"]], "parts": [p["name"] for p in fc["levels"][0]["parts"]][:8],
-                    "verdict": verdicts[fc["id"]]})
+        chk.sample({"id": fc["id"], "n": fc.get("n"), "parts": fc.get("parts"), "verdict": verdicts[fc["id"]]})
     chk.assumptions = ["the origin certificate is computed by the glue code but every entry is checked by the specification (IsParent, VertexOrigin)",
                        "non-dyadic coordinates are snapped to a dyadic grid for the exact checks (a still valid mesh); on the original coordinates "
                        "volume and orientation are decided through the stated floating point projection (64 n eps)",
